@@ -735,7 +735,14 @@ where
     json!(out)
 }
 
-async fn chunk_case(sizes: &[usize], n: usize, tw: &mut TraceWriter) {
+struct TraceBuf(Vec<Value>);
+impl TraceBuf {
+    fn emit(&mut self, v: Value) {
+        self.0.push(v);
+    }
+}
+
+async fn chunk_case(sizes: &[usize], n: usize, tw: &mut TraceBuf) {
     // chunk_stream: chunks of slices
     let mut out = Vec::new();
     let mut err = json!("");
@@ -791,7 +798,15 @@ fn main() {
                         })
                         .collect();
                     for n in 1..=max_chunk {
-                        chunk_case(&sizes, n, &mut tw).await;
+                        // a panic inside the code under test is data
+                        let mut evs = TraceBuf(Vec::new());
+                        let r = futures::FutureExt::catch_unwind(std::panic::AssertUnwindSafe(chunk_case(&sizes, n, &mut evs))).await;
+                        for e in evs.0 {
+                            tw.emit(e);
+                        }
+                        if let Err(e) = r {
+                            tw.emit(json!({"k": "chunk", "fn": "panic", "sizes": sizes, "n": n, "out": [], "err": panic_msg(e)}));
+                        }
                     }
                 }
             }
